@@ -67,8 +67,11 @@ func (f *Frame) enterLoop(li *loopInfo, cur *State, r string) (*State, string) {
 	// 1. invariants on entry
 	if li.lc != nil {
 		ev := f.loopEval(li, cur, r)
+		for _, u := range li.lc.Uses {
+			ev.useAxiom(u)
+		}
 		for _, inv := range li.lc.Invariants {
-			g, err := ev.evalBool(inv.Expr)
+			g, err := c.skolemGoal(inv.Expr, ev, r)
 			if err != nil {
 				c.errorf("%s: invariant %s: %v", inv.Where, inv.Tag(), err)
 				f.unbound("inv-init"+inv.Tag()+"/"+f.loopName(li), inv, err)
@@ -188,6 +191,7 @@ func (f *Frame) enterLoop(li *loopInfo, cur *State, r string) (*State, string) {
 				continue
 			}
 			c.assume(rh, g)
+			c.noteHyp(inv.Expr, ev, rh)
 		}
 		for _, u := range li.lc.Uses {
 			ev.useAxiom(u)
@@ -245,7 +249,7 @@ func (f *Frame) closeLoop(li *loopInfo, st *State, cond string) {
 	if li.lc != nil {
 		ev := f.loopEval(li, st, cond)
 		for _, inv := range li.lc.Invariants {
-			g, err := ev.evalBool(inv.Expr)
+			g, err := c.skolemGoal(inv.Expr, ev, cond)
 			if err != nil {
 				c.errorf("%s: invariant %s at back edge: %v", inv.Where, inv.Tag(), err)
 				f.unbound("inv-keep"+inv.Tag()+"/"+f.loopName(li), inv, err)
